@@ -375,7 +375,14 @@ impl<Endpoint: Ord + Clone> BlockHandler<Endpoint> {
                 let reply_end_offset =
                     reply_start_offset + negotiated_block_size;
 
-                let num = reply_start_offset / negotiated_block_size;
+                let num = reply_start_offset
+                    .checked_div(negotiated_block_size)
+                    .ok_or_else(|| {
+                        HandlingError::internal(format!(
+                            "Message too large to encode at any block size: {} leaves no room for a block",
+                            max_total_message_size
+                        ))
+                    })?;
                 let more = reply_end_offset < total_payload_size;
 
                 Some(BlockValue::new(num, more, negotiated_block_size))
